@@ -10,11 +10,29 @@ mod obj;
 mod util;
 mod words;
 
+static LAST_PANIC: std::sync::Mutex<String> = std::sync::Mutex::new(String::new());
+
 fn main() {
-    // a panic inside the library under test is data (recorded by the drivers), not noise
-    if std::env::var_os("VERIF_PANIC_VERBOSE").is_none() {
-        std::panic::set_hook(Box::new(|_| {}));
+    // a panic inside the library under test is data (recorded by the drivers), not noise; the place
+    // of the last one is remembered so that a panic no driver caught can still be attributed
+    let verbose = std::env::var_os("VERIF_PANIC_VERBOSE").is_some();
+    std::panic::set_hook(Box::new(move |info| {
+        let loc = info.location().map(|l| format!("{}:{}", l.file(), l.line())).unwrap_or_default();
+        if verbose {
+            eprintln!("panic at {}: {}", loc, info);
+        }
+        if let Ok(mut g) = LAST_PANIC.lock() {
+            *g = loc;
+        }
+    }));
+    if std::panic::catch_unwind(real_main).is_err() {
+        // safety net: exit code 4 + the place; the check decides whether that place is the library
+        println!("UNCAUGHT-PANIC {}", LAST_PANIC.lock().map(|g| g.clone()).unwrap_or_default());
+        std::process::exit(4);
     }
+}
+
+fn real_main() {
     let argv: Vec<String> = std::env::args().collect();
     if argv.len() < 2 {
         eprintln!("usage: verif-harness <cmd> [--seed N] [--tier quick|thorough] [--out DIR] [--shards N]");
